@@ -66,5 +66,15 @@ impl Maker for P {
     fn code_make(&self, id: u32, fail: bool) -> Result<P, ()> { if fail { Err(()) } else { Ok(P::new(id)) } }
 }
 
+/// consuming method on a trait whose objects carry non-empty temporary storage (a borrowed wrapped getter)
+#[cglue_trait]
+pub trait Both {
+    #[wrap_with_obj_ref(Look)]
+    type Inner: Look + 'static;
+    fn inner(&self) -> &Self::Inner;
+    fn finish(self) -> u32;
+}
+impl Both for P { type Inner = P; fn inner(&self) -> &P { self } fn finish(self) -> u32 { assert!(self.ok()); self.id ^ 0x55 } }
+
 #[cfg(kani)]
 mod verif;
